@@ -291,3 +291,6 @@ def _long(env, cfg):
         guarded(env, 'explain_one', ex.explain_one, x, y)
         if t >= 1:
             _reference_and_claims(env, b, pre_vals, x, y, tag=f"_t{t + 1}")
+
+
+META['explanation'] += ' Further groups: per-call n_inner overrides, swapped / input-dependent label sets, memoising model, second explanation after a storage update, long reference runs from a fresh explainer.'
